@@ -158,6 +158,46 @@ func c05MaxConsulted(c *core.Ctx) {
 				}
 			}
 		}
+		// the comparison may live in a small boolean helper (e.g. `cur.full()`): a call of a repository function that
+		// compares the counter with the maximum counts at the calling block
+		for _, ci := range core.Calls(f) {
+			cf := ci.Common().StaticCallee()
+			if cf == nil || cf == f || cf.Blocks == nil || !core.InRepo(core.FuncPkg(cf)) || len(cf.Blocks) > 3 {
+				continue
+			}
+			for _, b := range cf.Blocks {
+				for _, in := range b.Instrs {
+					bo, ok := in.(*ssa.BinOp)
+					if !ok {
+						continue
+					}
+					occ := func(v ssa.Value) bool {
+						u, ok := v.(*ssa.UnOp)
+						if !ok {
+							return false
+						}
+						fa, ok := u.X.(*ssa.FieldAddr)
+						return ok && core.FieldOfAddr(fa) == fld
+					}
+					mx := func(v ssa.Value) bool {
+						call, ok := v.(*ssa.Call)
+						if !ok {
+							return false
+						}
+						name := ""
+						if call.Call.IsInvoke() {
+							name = call.Call.Method.Name()
+						} else if g := call.Call.StaticCallee(); g != nil {
+							name = g.Name()
+						}
+						return strings.Contains(strings.ToLower(name), "max")
+					}
+					if (occ(bo.X) && mx(bo.Y)) || (occ(bo.Y) && mx(bo.X)) {
+						cmpBlocks[ci.Block()] = true
+					}
+				}
+			}
+		}
 		if len(cmpBlocks) == 0 {
 			c.Bad("R05d", key, core.InstrPos(inc), "the occurrence counter is incremented but never compared with the declaration's maximum in this function")
 			continue
